@@ -355,6 +355,30 @@ func (c *picCtx) step(op Op, i int) (ret string, inforel string) {
 			return "err", ""
 		}
 		c.doc = out
+	case "RemovePic":
+		n := 0
+		for _, el := range d.Body.Elements {
+			p, ok := el.(*document.Paragraph)
+			if !ok {
+				continue
+			}
+			has := false
+			for _, r := range p.Runs {
+				if r.Drawing != nil {
+					has = true
+				}
+			}
+			if has {
+				n++
+				if n == op.Int("i") {
+					if d.RemoveParagraph(p) {
+						return "ok", ""
+					}
+					return "err", ""
+				}
+			}
+		}
+		return "err", ""
 	case "Other":
 		tok := fmt.Sprintf("T%d", i)
 		switch op.Str("what") {
